@@ -716,7 +716,14 @@ func (n ForOfStmt) JS(w io.Writer) {
 		w.Write([]byte(" await"))
 	}
 	w.Write([]byte(" ("))
-	n.Init.JS(w)
+	if v, ok := n.Init.(*Var); ok && !n.Await && bytes.Equal(v.Name(), []byte("async")) {
+		// for (async of ...) is not allowed by the grammar
+		w.Write([]byte("("))
+		n.Init.JS(w)
+		w.Write([]byte(")"))
+	} else {
+		n.Init.JS(w)
+	}
 	w.Write([]byte(" of "))
 	n.Value.JS(w)
 	w.Write([]byte(") "))
